@@ -598,7 +598,7 @@ func ruleC12Docs(p *Prog, r *Result) {
 			if !mConcat(mStr("$repeat:"), mKeyOf(rsP))(nm) {
 				return false, "the variable bound is not $repeat:<name>: " + nm.String()
 			}
-			if _, sorted := sortedKeyOf(nm.Args[1].Args[0]); !sorted {
+			if _, sorted := sortedKeyOf(concatParts(nm)[1]); !sorted {
 				return false, "names are not visited in sorted order: the order of the cartesian product depends on map order"
 			}
 			cnt := e.Args[3]
@@ -607,6 +607,32 @@ func ruleC12Docs(p *Prog, r *Result) {
 			}
 			if guardPol(pa, "kind", mElemOf(rsP), "int") != 1 {
 				return false, "the count is used without checking that it is an int"
+			}
+		}
+		return true, ""
+	})
+	// no name is skipped: an iteration over the names ends only after every existing pair went through the
+	// expansion for that name (a shortcut for "count 1" that binds the variable on one shared context leaves
+	// the copies made for earlier names without it)
+	pm.all("every name expands every existing (document, context) pair, whatever its count", selectPaths(pm.paths, func(pa *Path) bool {
+		if pa.End != "iter" {
+			return false
+		}
+		rg := pa.LoopRange[pa.Loop]
+		return strings.Contains(rg, "slices.Sorted") && strings.Contains(rg, "param:rs")
+	}), "the names loop continues only after the loop over the pairs is exhausted", func(pa *Path) (bool, string) {
+		inner := false
+		for _, g := range pa.Guards {
+			if g.Kind == "itermore" && g.Neg && g.A != nil && len(g.A.Find(func(t *T) bool { return t.Op == "carried" })) > 0 {
+				inner = true
+			}
+		}
+		if !inner {
+			return false, "a name is dealt with without expanding the pairs built so far: the per-copy contexts do not receive $repeat:<name> (or the product misses a factor)"
+		}
+		for _, e := range pa.Effects {
+			if e.Kind == "mapset" && len(e.Loops) > 0 && len(e.Args) > 0 && len(e.Args[0].Find(func(t *T) bool { return t.IsParam("ec") })) > 0 && len(e.Loops) == 1 {
+				_ = e
 			}
 		}
 		return true, ""
